@@ -4,10 +4,12 @@ import (
 	"encoding/json"
 	"fmt"
 	"mime"
+	"net/http"
 	"sort"
 	"strings"
 
 	"github.com/issue9/mux/v9"
+	"github.com/issue9/mux/v9/types"
 
 	"verifharness/explore"
 	"verifharness/hv"
@@ -33,6 +35,8 @@ func (m mspec) String() string {
 		return "PathVersion(" + strings.Join(m.Args, ",") + ")"
 	case "hv":
 		return "HeaderVersion(" + strings.Join(m.Args, ",") + ")"
+	case "dirty":
+		return "MatcherFunc(sets dirty=1, rejects)"
 	}
 	var s []string
 	for _, x := range m.Sub {
@@ -51,6 +55,8 @@ func (m mspec) build() mux.Matcher {
 		return mux.NewPathVersion(m.Args[0], append([]string{}, m.Args[1:]...)...)
 	case "hv":
 		return mux.NewHeaderVersion(m.Args[0], m.Args[1], func(error) {}, m.Args[2:]...)
+	case "dirty": // a user-written matcher that has written a parameter by the time it decides to reject
+		return mux.MatcherFunc(func(_ *http.Request, ctx *types.Context) bool { ctx.Set("dirty", "1"); return false })
 	}
 	var sub []mux.Matcher
 	for _, x := range m.Sub {
@@ -173,6 +179,7 @@ func c13Matchers() []mspec {
 		{K: "and", Sub: []mspec{pv1e, ha}},
 		{K: "or", Sub: []mspec{hv1, ha}}, // a rejecting first member must leave nothing behind for the second
 		{K: "or", Sub: []mspec{hv1, pv1e}},
+		{K: "dirty"},
 		{K: "or"},  // no alternative: accepts nothing
 		{K: "and"}, // no condition: accepts everything
 		{K: "or", Sub: []mspec{ha}},
@@ -205,6 +212,8 @@ func (it c13Item) opStrings(ms []mspec) []string {
 			s = append(s, "Group.Use(A)")
 		case "remove":
 			s = append(s, "Group.Remove("+o.Name+")")
+		case "readd":
+			s = append(s, fmt.Sprintf("Group.Add(%s, the removed router %s)", ms[o.M], o.Name))
 		case "dup":
 			s = append(s, "Group.New("+o.Name+") again (duplicate name)")
 		case "dupadd":
@@ -240,6 +249,7 @@ func c13Job(raw json.RawMessage) (any, error) {
 	}
 	g := newGroup()
 	var model []*grouter
+	objs := map[string]*Router{}
 	guse := 0
 	addRoutes := func(r *Router, name string) {
 		r.Handle("/x", hv.Route("hx:"+name), nil, "GET")
@@ -254,10 +264,12 @@ func c13Job(raw json.RawMessage) (any, error) {
 		switch o.K {
 		case "new":
 			r := g.New(o.Name, ms[o.M].build(), mux.WithTrace(hv.TraceH()))
+			objs[o.Name] = r
 			addRoutes(r, o.Name)
 			model = append(model, &grouter{o.Name, ms[o.M], true, guse})
 		case "add":
 			r := NewRouter(RouterCfg{Name: o.Name, Trace: true})
+			objs[o.Name] = r
 			addRoutes(r, o.Name)
 			g.Add(ms[o.M].build(), r)
 			model = append(model, &grouter{o.Name, ms[o.M], true, guse})
@@ -274,6 +286,16 @@ func c13Job(raw json.RawMessage) (any, error) {
 			for _, r := range model {
 				if r.name == o.Name {
 					r.live = false
+				}
+			}
+		case "readd":
+			// the router object that was removed is added again, with another matcher: it goes to the end of the
+			// list, answers to the new matcher only, and Add wraps it in the group's middlewares once more
+			g.Add(ms[o.M].build(), objs[o.Name])
+			for i, r := range model {
+				if r.name == o.Name {
+					model = append(append(append([]*grouter{}, model[:i]...), model[i+1:]...), &grouter{o.Name, ms[o.M], true, r.use + guse})
+					break
 				}
 			}
 		case "dupadd":
@@ -335,9 +357,16 @@ func c13Job(raw json.RawMessage) (any, error) {
 	table.Handle(`/{sub:\d+}/y/c`, "hyc", nil, "GET")
 	table.Handle("/{k}/y/b", "hyb", nil, "GET")
 	trail := func(n int) string { return strings.TrimSuffix(strings.Repeat("A,", n), ",") }
+	// the Accept header only matters to groups that have a header-version matcher somewhere
+	accepts := []string{"", "application/json;version=1"}
+	for _, r := range model {
+		if strings.Contains(r.m.String(), "HeaderVersion") {
+			accepts = []string{"", "application/json;version=1", "application/json;version=2", ";;"}
+		}
+	}
 	for _, host := range []string{"a.com", "b.com", "s.a.com", "A.COM:80"} {
 		for _, path := range []string{"/x", "/v1/x", "/v2/x", "/v1", "/v1/v1/x", "/zz", "zz" /* no route of any router: a 404 inside the winning router */, "/2/y/b", "/2/y/a"} {
-			for _, acc := range []string{"", "application/json;version=1", "application/json;version=2", ";;"} {
+			for _, acc := range accepts {
 				for _, method := range []string{"GET", "POST", "OPTIONS", "GET+raw", "TRACE"} {
 					q := hv.Req{Method: method, Path: path, Host: host}
 					if method == "GET+raw" { // the target arrived percent-encoded: URL.RawPath carries the encoded form
@@ -511,6 +540,9 @@ func init() {
 					for i := range cur {
 						rm := append(append([]gOp{}, ops...), gOp{K: "remove", Name: names[i]})
 						items = append(items, c13Item{Ops: rm})
+						// ... and added again under the nil matcher / under the matcher of the last router
+						items = append(items, c13Item{Ops: append(append([]gOp{}, rm...), gOp{K: "readd", Name: names[i], M: 0})},
+							c13Item{Ops: append(append([]gOp{}, rm...), gOp{K: "readd", Name: names[i], M: cur[len(cur)-1]})})
 					}
 					items = append(items, c13Item{Ops: append(append([]gOp{}, ops...), gOp{K: "dup", Name: names[0]})})
 					items = append(items, c13Item{Ops: append(append([]gOp{}, ops...), gOp{K: "dupadd", Name: names[len(cur)-1]})})
